@@ -191,24 +191,6 @@ fn c15_nack_set_preserved_3() { nack_obligation::<3>(); }
 #[kani::stub(<[u16]>::sort_unstable, ins_sort_u16)]
 #[kani::stub(std::vec::Vec::<u16>::dedup, simple_dedup)]
 fn c15_nack_set_preserved_4() { nack_obligation::<4>(); }
-#[kani::proof]
-#[kani::unwind(18)]
-#[kani::stub(<[u16]>::sort_unstable, ins_sort_u16)]
-#[kani::stub(std::vec::Vec::<u16>::dedup, simple_dedup)]
-fn c15_nack_body_roundtrip_pair() {
-    // build_nack_body / parse_nack_body on one (pid, blp) worth of sequence numbers
-    let pid: u16 = kani::any();
-    let d: u16 = kani::any();
-    kani::assume(d >= 1 && d <= 16);
-    let n = GenericNack { sender_ssrc: kani::any(), media_ssrc: kani::any(), lost_packets: vec![pid, pid.wrapping_add(d)] };
-    kani::assume(pid <= pid.wrapping_add(d)); // no wrap inside this pair (sorted input)
-    let body = build_nack_body(&n).unwrap();
-    assert!(body.len() == 12);
-    let p = parse_nack_body(&body).unwrap();
-    assert!(p.sender_ssrc == n.sender_ssrc && p.media_ssrc == n.media_ssrc);
-    assert!(p.lost_packets.len() == 2 && p.lost_packets[0] == pid && p.lost_packets[1] == pid.wrapping_add(d));
-}
-
 // ---------------------------------------------------------------- framing
 /// write_rtcp_packet: V=2, P=0, 5-bit count, body padded to 32 bits, length == words-1
 fn framing_obligation<const N: usize>() {
@@ -415,18 +397,6 @@ fn c15_set_keeps_other_extension_4() { set_keeps_others_obligation::<4>(); }
 #[kani::proof]
 #[kani::unwind(12)]
 fn c07_set_extension_total_4() { set_total_obligation::<4>(); }
-/// cheaper variant for the quick tier: the received block is one element header (symbolic id and
-/// length nibble) followed by three zero bytes
-#[kani::proof]
-#[kani::unwind(12)]
-fn c07_set_extension_total_first_elem() {
-    let e: [u8; 4] = [kani::any(), 0, 0, 0];
-    let mut h = any_header(0, Some(RtpHeaderExtension { profile: 0xBEDE, data: static_bytes_of(e) }));
-    let id: u8 = kani::any();
-    let d: [u8; 1] = kani::any();
-    let r = h.set_extension(id, &d);
-    core::mem::forget(r); core::mem::forget(h);
-}
 
 // ---------------------------------------------------------------- C07: totality of the RTCP sub-parsers
 macro_rules! sub_total {
